@@ -24,7 +24,11 @@ META = {
             "10 s gaps, 0/50/100 % loss, unknown packets, duplicated feedback; TWCC and RFC 8888) are executed on the real "
             "gcc.SendSideBWE and through cc.Interceptor for four (initial, min, max) configurations and every pacer; each "
             "recorded trace (ordered SetTargetBitrate calls, callback values, linearizable getter polls, GetStats, WriteRTCP "
-            "results, Close) must be a behaviour of the specification; the state.transition table is compared for all pairs.",
+            "results, Close) must be a behaviour of the specification; the state.transition table is compared for all pairs. "
+            "Specification growth (no verdict, divergences are NOTEs): GccGroups.tla / GccOveruse.tla specify the arrival-group "
+            "accumulator, the rate window, adaptiveThreshold.compare, the overuse detector's hysteresis and the controller state "
+            "exactly over integers; TLC-generated and random input sequences run through the real stages and every output is "
+            "compared by TLC (Trace_GccGrow).",
     "note": "Claimed for the discrete envelope only: the numeric accuracy of the estimate (Kalman filter, thresholds, AIMD "
             "constants, loss averaging) is abstracted into nondeterministic integers and NOT checked. Real-code schedules are "
             "sampled (real goroutines, real clock), only the model's interleavings are exhaustive. Trusted: the reading of "
@@ -41,7 +45,10 @@ RULE = ("scripts = TLC-enumerated sequences of L rounds (send n packets with a d
         "combinations covered in rotation, seeded) + seeded random long scripts + loss scripts with 200 ms waits (thorough) "
         "+ concurrent feeders/getters/closer on one estimator + the same scripts through cc.Interceptor + the state "
         "table. Each runs on the real code; the trace is validated by TLC against Trace_Gcc. distinct_nontrivial = distinct "
-        "traces in which the target bitrate was published at least once.")
+        "traces in which the target bitrate was published at least once. Growth batches (coverage.growth, growth_notes): every "
+        "sequence of L acks / samples over boundary alphabets relative to the group / window / detector state + random long "
+        "sequences through the real arrivalGroupAccumulator, rateCalculator, adaptiveThreshold.compare, overuseDetector, "
+        "rateController; not part of the verdict except for panics/hangs.")
 
 PKG = "pkg/gcc"
 SHARED = os.path.join(vlib.VERIF, "harness", "pkg", "gcc", "zz_verif_gccshared_test.go.tpl")
@@ -412,20 +419,29 @@ def growth(ctx, rng):
                          note="negative control: applying the table from `increase` every time allows decrease -> increase")
         vlib.model_check(ctx, "MC_GccGroups.tla", "MC_GccGroups.cfg", workers=8, timeout=1800,
                          note="arrival groups + rate window, all sequences of 4 acks on a 5x6 grid")
-    scripts = groups_scripts_from(vlib.generate(
-        ctx, "Gen_GccGroups.tla", vlib.cfg_variant(ctx, "Gen_GccGroups.cfg", {"L": 2 if quick else 3, "Mode": '"groups"'})))
-    ods = vlib.generate(ctx, "Gen_GccOveruse.tla", vlib.cfg_variant(ctx, "Gen_GccOveruse.cfg", {"L": 2 if quick else 3}))
-    scripts += [{"lvl": "od", "steps": b} for b in ods]
-    if not quick:
-        rates = vlib.generate(ctx, "Gen_GccGroups.tla", vlib.cfg_variant(ctx, "Gen_GccGroups.cfg", {"L": 4, "Mode": '"rate"'}))
-        scripts += [{"lvl": "rate", "batch": (1, 0)[i % 2],
-                     "acks": [{"id": a["id"], "dep": 0, "arr": a["arr"], "size": a["size"]} for a in b]}
-                    for i, b in enumerate(rates)]
+    def some(beh, k):
+        return beh if quick or len(beh) <= k else rng.sample(beh, k)
+
+    gs = groups_scripts_from(some(vlib.generate(
+        ctx, "Gen_GccGroups.tla", vlib.cfg_variant(ctx, "Gen_GccGroups.cfg", {"L": 2 if quick else 3, "Mode": '"groups"'})),
+        120000))
+    ods = [{"lvl": "od", "steps": b} for b in some(vlib.generate(
+        ctx, "Gen_GccOveruse.tla", vlib.cfg_variant(ctx, "Gen_GccOveruse.cfg", {"L": 2 if quick else 3})), 120000)]
     n = 60 if quick else 1500
-    scripts += [random_groups_script(rng, 40) for _ in range(n)]
-    scripts += [random_rate_script(rng, 40) for _ in range(n)]
-    scripts += [random_od_script(rng, 90) for _ in range(n // 3)]
-    grow_batch(ctx, scripts, "GROW")
+    rnd = [random_groups_script(rng, 40) for _ in range(n)] + [random_rate_script(rng, 40) for _ in range(n)]
+    rnd += [random_od_script(rng, 90) for _ in range(n // 3)]
+    if quick:
+        grow_batch(ctx, gs + ods + rnd, "GROW")
+    else:
+        rates = some(vlib.generate(ctx, "Gen_GccGroups.tla",
+                                   vlib.cfg_variant(ctx, "Gen_GccGroups.cfg", {"L": 4, "Mode": '"rate"'})), 120000)
+        rs = [{"lvl": "rate", "batch": (1, 0)[i % 2],
+               "acks": [{"id": a["id"], "dep": 0, "arr": a["arr"], "size": a["size"]} for a in b]}
+              for i, b in enumerate(rates)]
+        grow_batch(ctx, gs, "GROW-groups")
+        grow_batch(ctx, ods, "GROW-overuse")
+        grow_batch(ctx, rs, "GROW-rate")
+        grow_batch(ctx, rnd, "GROW-random")
     g = ctx.cov.get("growth", {})
     if g.get("rates_undefined"):
         ctx.cov.setdefault("growth_notes", []).append(
@@ -434,6 +450,7 @@ def growth(ctx, rng):
             "specification leaves that output undefined" % g["rates_undefined"])
     for note in ctx.cov.get("growth_notes", []):
         print("NOTE: property=%s %s" % (ctx.pid, note), flush=True)
+
 
 # ------------------------------------------------------------------------------------------ run
 
